@@ -27,9 +27,12 @@ Sfx(k) == IF k = 0 THEN Auto ELSE Auto \o "_" \o ToString(k)
 (* configurations: both tables always have a key column (lk / rk) that never clashes *)
 Configs ==
     {[l |-> <<"lk">> \o ls, r |-> <<"rk">> \o rs, onmode |-> om, usfx |-> us] :
-        ls \in SubSeqs(Lu), rs \in SubSeqs(Ru), om \in {"keys", "same"}, us \in UserSuffixes}
-Valid(c) == c.onmode = "same" => ("a" \in SeqSet(c.l) /\ "a" \in SeqSet(c.r))
-Ron(c) == IF c.onmode = "same" THEN {"a"} ELSE {"rk"}        \* right columns used in `on`
+        ls \in SubSeqs(Lu), rs \in SubSeqs(Ru), om \in {"keys", "same", "cross"}, us \in UserSuffixes}
+(* on: "keys" = l.lk == r.rk, "same" = the string "a" (l.a == r.a), "cross" = l.a == r.b (differently named columns, while the *)
+(* right table may ALSO have a column a, which is then no join column)                                                          *)
+Valid(c) == /\ (c.onmode = "same" => ("a" \in SeqSet(c.l) /\ "a" \in SeqSet(c.r)))
+            /\ (c.onmode = "cross" => ("a" \in SeqSet(c.l) /\ "b" \in SeqSet(c.r)))
+Ron(c) == IF c.onmode = "same" THEN {"a"} ELSE IF c.onmode = "cross" THEN {"b"} ELSE {"rk"}        \* right columns used in `on`
 
 (* the documented rule *)
 Judge(c, out, err) ==
